@@ -196,8 +196,8 @@ class CellCycleController:
 
         if result == LockResult.ACQUIRED or result == LockResult.REENTRANT:
             ctx.add_acquired_resource(lock)
-            # Remove any dependency since we now own it
-            self.dependency_graph.remove_all_for_agent(ctx.operation_id)
+            # We no longer wait for this resource (other waits stay)
+            self.dependency_graph.reassign_resource(resource_id, ctx.operation_id)
 
         elif result == LockResult.BLOCKED:
             # Add to dependency graph
@@ -209,8 +209,8 @@ class CellCycleController:
 
         elif result == LockResult.PREEMPTED:
             ctx.add_acquired_resource(lock)
-            # Clear old dependencies
-            self.dependency_graph.remove_all_for_agent(ctx.operation_id)
+            # Whoever waited for the old owner now waits for us
+            self.dependency_graph.reassign_resource(resource_id, ctx.operation_id)
 
         return result
 
@@ -226,7 +226,9 @@ class CellCycleController:
             # A re-entrant hold stays tracked until its last release
             if lock.owner != ctx.operation_id:
                 del ctx.acquired_resources[resource_id]
-            self.dependency_graph.remove_all_for_agent(ctx.operation_id)
+            if lock.owner is None:
+                # Free again: nobody waits for it any more
+                self.dependency_graph.reassign_resource(resource_id, None)
 
         return released
 
@@ -249,6 +251,7 @@ class CellCycleController:
         Releases all resources and cleans up.
         """
         self.release_all_resources(ctx)
+        self.dependency_graph.remove_all_for_agent(ctx.operation_id)
         ctx.enter_phase(Phase.G0)
 
         if ctx.operation_id in self.active_operations:
@@ -275,6 +278,7 @@ class CellCycleController:
         Releases all resources and cleans up.
         """
         self.release_all_resources(ctx)
+        self.dependency_graph.remove_all_for_agent(ctx.operation_id)
         ctx.enter_phase(Phase.G0)
 
         if ctx.operation_id in self.active_operations:
